@@ -41,6 +41,10 @@ def corruptions(rng, S, n_each=2):
             out.append(("reaction-no-type", doc(base + [f"reaction [5 /s] {lhs}"])))
             out.append(("reaction-odd-units", doc(base + [f"reaction [{rt} = 5 +/- inf /M/M/M/h] {lhs}"])))
             out.append(("reaction-wrong-kind", doc(base + [f"reaction [{'open' if rt == 'condensed' else 'condensed'} = 1 /s] {lhs}"])))
+            # two oddities in one line: a reaction of the ignored kind that also names species nobody declared
+            out.append(("ignored-reaction-undeclared-species", doc(base + [rng.choice([
+                "reaction nobody1 + nobody2 -> nobody3", f"reaction [strange = 5 /s] nobody1 -> {re[0]}",
+                f"reaction [5 /s] {re[0]} -> nobody1", "reaction [weird = 1 /M/s] nobody1 + nobody1 -> nobody2"])])))
     names = list(S.strands)
     doms = list(S.domains)
     if names:
@@ -173,6 +177,9 @@ def run(ctx):
                 c["prelude"] = prelude
             if kind in ("reaction-no-rate", "reaction-unknown-type", "reaction-no-type"):
                 c["expect_reactions"] = len(S.reactions)
+            if kind in ("reaction-no-rate", "reaction-unknown-type", "reaction-no-type", "ignored-reaction-undeclared-species") \
+                    and "prelude" not in c:
+                c["must_read"] = True          # ignored lines never abort the read of an otherwise valid document
             cases.append(c)
         for kind, text in token_mutations(rng, valid, 3 if quick else 10):
             kinds[kind] = kinds.get(kind, 0) + 1
